@@ -4,7 +4,8 @@ FIX_COMMITS = ['c5b9684 (C05 DataReader EOD==0)', 'c3bb002 (C17 ESC prefix on 1x
                '57b9489 (C20 flatten raising on over-long 8-bit header lines)', '72f4152 (C07 421 after message data)',
                '443d88b (C07/C08 transaction survives STARTTLS)', '32a1f33 (C09 size limit segmentation-dependent / oversize content executed)',
                '23d724d + 0580462 (C03/C01 delivered-index history, re-queue before marks stored)', '866c7e1 (C01 dict shadowing)',
-               '14c3a79 + f3319b7 (C12 flush)', '8c3f97c (C12 schedule list mutated during blocking spawn)']
+               '14c3a79 + f3319b7 (C12 flush)', '8c3f97c (C12 schedule list mutated during blocking spawn)', 'b06082a (C15 redis load)', '4831a3d (C15 cloud attempts)',
+               '927adda (C15/C03 DictStorage over shelve)', 'bd8a6c6 (C03 active until removed)']
 
 ENGINES = [
     {'name': 'runner', 'path': 'vf/runner.py', 'serves_properties': [],
@@ -14,6 +15,8 @@ ENGINES = [
      'kind_free_text': 'synchronous Server/SmtpEdge sessions on a scripted socket, verdicts encoded in command arguments, reference SMTP automaton, lock-step judge'},
     {'name': 'queue-machine', 'path': 'vf/qm.py', 'serves_properties': ['C01', 'C03', 'C12', 'C13'],
      'kind_free_text': 'real slimta Queue + real storage backend + scripted relay; every storage/relay call parks on a harness gate, scheduler on a virtual clock; JSON action histories interpreted robustly, reference model, fair drain'},
+    {'name': 'storage-machine', 'path': 'vf/props/c15.py', 'serves_properties': ['C15'],
+     'kind_free_text': 'operation-sequence interpreter over the real backends (vf/backends.py: RESP fake redis, in-memory object store, shelve-like mapping) with a reference dict store'},
     {'name': 'reactive-peer', 'path': 'vf/props/c10.py', 'serves_properties': ['C10'],
      'kind_free_text': 'in-memory downstream that parses what the client sends and only then makes the scripted replies readable; a read when nothing is owed raises'},
     {'name': 'scripted-socket', 'path': 'vf/transport.py', 'serves_properties': ['C05', 'C17'],
@@ -134,6 +137,16 @@ CHECKS['C13'] = {
     'text': 'the multiset of bounces produced (grouped by failure reply, exhaustion suffix) equals the model, each addressed only to the original sender, naming exactly the failed group, quoting the reply and embedding the original header block (and body) unchanged; none for an empty sender; each enqueued exactly once; no bounce loops',
     'design_ref': 'DESIGN.md sections 1.4 and 2 C13',
     'note': 'schedules explored at the granularity of storage/relay/timer gates; "eventually" judged by a bounded fair drain; known finding: bounded-pool deadlock (known_findings.json)',
+}
+CHECKS['C15'] = {
+    'engine': 'storage-machine',
+    'level': 'exploration',
+    'technique': 'model-based stateful property testing: Hypothesis operation sequences on each real backend vs a reference dict store, overlapped pairs in two greenlets',
+    'text': 'operation sequences over 1..5 messages on dict, dict-over-shelve, disk (pyaio), redis (real redis-py client against an in-process RESP server) and '
+            'cloud (in-memory object store mirroring aws.py) are compared step by step with a reference store: distinct str ids, get returns sender/content/'
+            'recipients-minus-delivered/attempts, load lists exactly the live ids with latest timestamps, removed messages are gone, overlapped operations on different ids do not disturb each other',
+    'design_ref': 'DESIGN.md section 2 C15',
+    'note': 'fidelity of the fake redis server and object store is trusted; exception type of get-after-remove is gray',
 }
 
 NOT_APPLICABLE = {}
